@@ -72,8 +72,9 @@ def strategy(tier):
         "values": st.lists(st.tuples(st.integers(0, len(POSITIONS) - 1), _plaintext(), st.sampled_from(["aes", "xor", "best"])), min_size=1, max_size=6),
         "n_items": st.integers(1, 3),
         "root_key": st.sampled_from([None, "kroot", "kroot"]),
-        "assign": st.lists(st.tuples(st.sampled_from(SUBCONFIGS), st.sampled_from(["k1", "k2", "k3"]), st.sampled_from(["early", "before_save", "after_save"])), max_size=3),
-        "class_keys": st.fixed_dictionaries({"T": st.sampled_from([None, None, "kT"]), "TI": st.sampled_from([None, None, "kTI"])}),
+        "assign": st.lists(st.tuples(st.sampled_from(SUBCONFIGS), st.sampled_from(["k1", "k2", "k3", "kroot"]), st.sampled_from(["early", "before_save", "after_save"])), max_size=3),
+        # a class-level key may be the very file the enclosing configuration resolves to (kroot)
+        "class_keys": st.fixed_dictionaries({"T": st.sampled_from([None, None, "kT", "kroot"]), "TI": st.sampled_from([None, None, "kTI", "kroot"])}),
         "rekey_root": st.sampled_from([None, None, "kroot2"]),
         "methods": st.lists(st.sampled_from(["aes", "xor", "best"]), min_size=10, max_size=10),
     })
